@@ -98,11 +98,7 @@ func Active() bool { return active }
 //go:norace
 func Start(s uint64, start time.Time) {
 	if evR < 0 {
-		var p [2]int32
-		if _, _, e := syscall.RawSyscall(syscall.SYS_PIPE2, uintptr(unsafe.Pointer(&p[0])), 0, 0); e != 0 {
-			panic("simrt: pipe2 failed")
-		}
-		evR, evW = int(p[0]), int(p[1])
+		evR, evW = RawPipe()
 	}
 	active = true
 	seed = s
@@ -194,12 +190,27 @@ func RawPoll(fd int, timeoutMS int) bool {
 	}
 }
 
+// RawPipe creates a pipe whose descriptors are moved above highFD: code under
+// test that closes a descriptor twice (pkappa2's PCAP-over-IP reader does,
+// see DESIGN §8) closes a low, freshly reused number and must not hit the
+// control plane.
 func RawPipe() (r, w int) {
 	var p [2]int32
 	if _, _, e := syscall.RawSyscall(syscall.SYS_PIPE2, uintptr(unsafe.Pointer(&p[0])), 0, 0); e != 0 {
 		panic("simrt: pipe2 failed")
 	}
-	return int(p[0]), int(p[1])
+	return moveHigh(int(p[0])), moveHigh(int(p[1]))
+}
+
+const highFD = 4000
+
+func moveHigh(fd int) int {
+	n, _, e := syscall.RawSyscall(syscall.SYS_FCNTL, uintptr(fd), syscall.F_DUPFD, highFD)
+	if e != 0 {
+		return fd
+	}
+	syscall.RawSyscall(syscall.SYS_CLOSE, uintptr(fd), 0, 0)
+	return int(n)
 }
 
 func RawClose(fd int) {
